@@ -21,7 +21,7 @@ RULE = (
     "pattern P drawn recursively from scalars {None,bool,int>=2,non-integral float,str}, regex pool, list, set (hashable "
     "members), dict(str keys), depth<=3, <=4 children; payload V = witness(P) with 0-3 structural mutations (insert/drop/"
     "swap/alter-leaf/retype/replace-subtree) or an independent value; program `match Ev(p=P[,q=Q])` then `send Hit()`; the event "
-    "carries 0-2 unmentioned parameters. Plus a small exhaustive table over leaves {2,'a'} depth<=2 and instance cases "
+    "carries 0-2 unmentioned parameters. In one case of six the pattern is matched against the start arguments of an action instance (`match XAction(p=P).Finished()` on the Finished event of an action started with those arguments). Plus a small exhaustive table over leaves {2,'a'} depth<=2 and instance cases "
     "($ref.Finished() of action/flow instances). Non-trivial = pattern nesting depth >= 2, or a payload obtained by a "
     "drop/swap/retype mutation (fewer elements, reordered, different container); distinct by (pattern, payload)."
 )
@@ -259,6 +259,7 @@ def _case(draw):
     if form != "param":
         target = draw(st.sampled_from([0, 1, 2, "none", "missing", "unknown"]))
         return {"form": form, "which": draw(st.integers(0, 2)), "target": target, "n": 3, "with_args": draw(st.booleans()), "event": draw(st.sampled_from(["Finished", "Started"]))}
+    via_action = draw(st.integers(0, 5)) == 0  # the pattern is matched against the START ARGUMENTS of an action instance
     nparams = draw(st.integers(1, 2))
     pats, pay, kinds = {}, {}, []
     for name in ["p", "q"][:nparams]:
@@ -281,7 +282,10 @@ def _case(draw):
         else:
             pay[name] = V
     extra = draw(st.dictionaries(st.sampled_from(["x", "y"]), scalar, max_size=2))
-    return {"form": "param", "pattern": pats, "payload": pay, "extra": extra, "mut": kinds}
+    case = {"form": "param", "pattern": pats, "payload": pay, "extra": extra, "mut": kinds}
+    if via_action:
+        case["form"] = "action_args"
+    return case
 
 
 def strategy(tier):
@@ -365,7 +369,40 @@ def _instance_case(case):
     return ok(nt=True, labels=[case["form"], lab], view=case)
 
 
+def _action_args_case(case):
+    """`match XAction(p=P).Finished()` refers to the action instances whose start arguments match P."""
+    pats, pay = case["pattern"], dict(case["payload"])
+    pay.update(case["extra"])
+    try:
+        expected = all(k in pay and ref_match(P, pay[k]) for k, P in pats.items())
+    except Unspecified:
+        return ok(skip="unspecified: regex vs bool/None")
+    try:
+        start_args = ", ".join(f"{k}={smh.lit(v)}" for k, v in pay.items())
+    except TypeError:
+        return ok(skip="payload not renderable as literal")
+    if any(smh.lit(v) == "set()" for v in pay.values()) or "set()" in start_args:
+        return ok(skip="empty set literal")
+    pat_args = ", ".join(f"{k}={smh.lit(v)}" for k, v in pats.items())
+    program = f"flow main\n  start XAction({start_args}) as $a\n  match XAction({pat_args}).Finished()\n  send Hit()\n  match Never()\n"
+    state = smh.init(program)
+    starts = [e for e in state.outgoing_events if e["type"] == "StartXAction"]
+    if len(starts) != 1:
+        raise Violation("setup", f"expected one StartXAction, got {smh.types(state.outgoing_events)}\n{program}")
+    out = smh.feed(state, smh.ev("XActionFinished", action_uid=starts[0]["action_uid"], is_success=True))
+    got = "Hit" in smh.types(out)
+    if got != expected:
+        raise Violation(
+            "action-arguments-verdict",
+            f"action started as XAction({start_args}); `match XAction({pat_args}).Finished()` {'matched' if got else 'did not match'} its Finished event, rule says {'match' if expected else 'no match'}",
+        )
+    d = max(depth(P) for P in pats.values())
+    return ok(nt=d >= 1, labels=["action-args", "match" if expected else "no-match", f"depth{d}"], view={"start": f"XAction({start_args})", "statement": f"match XAction({pat_args}).Finished()", "matched": got})
+
+
 def prop(case):
+    if case["form"] == "action_args":
+        return _action_args_case(case)
     if case["form"] != "param":
         return _instance_case(case)
     pats, pay = case["pattern"], case["payload"]
